@@ -127,6 +127,33 @@ def generate():
                       re.search(r"memset\s*\(\s*title\s*,\s*0\s*,\s*(?:sizeof\s*\(?\s*title\s*\)?|%d)\s*\)" % tsize, head))
     inits = bool(full_inits or re.search(r"\btitle\s*\[\s*0\s*\]\s*=", head) or re.search(r"\*\s*title\s*=", head))
 
+    # --- load.c: is the local title buffer of test_module initialised, do the wrappers reset `info` themselves?
+    lc = strip_c_comments(open(os.path.join(src, "load.c")).read())
+    tm = function_body(lc, "test_module")
+    kt = tm.find("->test(")
+    kl = tm.find("for (")
+    init_pat = r"(?:\bbuf\s*\[\s*0\s*\]\s*=|\*\s*buf\s*=|memset\s*\(\s*buf\s*,\s*0\b)"
+    decl_init = bool(re.search(r"char\s+buf\s*\[[^\]]*\]\s*=", tm))
+    if kt < 0 or kl < 0 or kl > kt:
+        raise vlib.InfraError("test_module: loop / ->test( call not found")
+    if re.search(init_pat, tm[kl:kt]):
+        buf_init = 2          # before every probe
+    elif decl_init or re.search(init_pat, tm[:kl]):
+        buf_init = 1          # once, before the loop
+    else:
+        buf_init = 0
+    reset_pat = r"(?:\*\s*info->name\s*=\s*(?:0|'\\0')|info->name\s*\[\s*0\s*\]\s*=\s*(?:0|'\\0'))"
+    resetters = []
+    for mm in re.finditer(r"^static\s+(?:inline\s+)?void\s+(\w+)\s*\(\s*struct\s+xmp_test_info\s*\*", lc, re.M):
+        if re.search(reset_pat, function_body(lc, mm.group(1))):
+            resetters.append(mm.group(1))
+    wrappers_reset = True
+    for fn in ("xmp_test_module", "xmp_test_module_from_memory", "xmp_test_module_from_file", "xmp_test_module_from_callbacks"):
+        body = function_body(lc, fn)
+        head = body[:body.find("return")] if "return" in body else body
+        ok = bool(re.search(reset_pat, head)) or any(re.search(r"\b%s\s*\(" % r, head) for r in resetters)
+        wrappers_reset = wrappers_reset and ok
+
     L = []
     L.append("/-! GENERATED by tools/gen_c11.py from /repo (include/xmp.h, src/load_helpers.c, src/format.c,")
     L.append("    src/loaders/*.c, src/loaders/prowizard/*.c). Do not edit; regenerated on every run of the C11 check. -/")
@@ -153,11 +180,16 @@ def generate():
     L.append("/-- `pw_check` gives `title` a defined first byte / a fully defined content before the detectors run -/")
     L.append("def pwTitleInitFirst : Bool := %s" % ("true" if inits else "false"))
     L.append("def pwTitleInitAll : Bool := %s" % ("true" if full_inits else "false"))
+    L.append("/-- `test_module`: the local `buf[XMP_NAME_SIZE]` gets a defined first byte: 0 never, 1 once before the")
+    L.append("loop, 2 before every `->test(h, buf, 0)` -/")
+    L.append("def testBufInit : Nat := %d" % buf_init)
+    L.append("/-- every `xmp_test_module*` wrapper empties `info->name`/`info->type` before its first `return` -/")
+    L.append("def wrappersResetInfo : Bool := %s" % ("true" if wrappers_reset else "false"))
     L.append("")
     L.append("end Xmp.TestLoad.Gen")
     changed = vlib.write_if_changed(OUT, "\n".join(L) + "\n")
     return dict(changed=changed, n_loaders=len(syms), n_pw=len(pwsyms), prepare_returns=rets,
-                pw_title_init=inits, pw_untitled=[pwnames[s] for s in pwsyms if s in pwuntitled], syms=syms, names=[names[s] for s in syms], pwnames=[pwnames[s] for s in pwsyms])
+                pw_title_init=inits, buf_init=buf_init, wrappers_reset=wrappers_reset, pw_untitled=[pwnames[s] for s in pwsyms if s in pwuntitled], syms=syms, names=[names[s] for s in syms], pwnames=[pwnames[s] for s in pwsyms])
 
 
 if __name__ == "__main__":
